@@ -120,7 +120,7 @@ RecvEv(rm, e) ==
   CASE e[1] = "rx" -> RecvRx(rm, e[2], e[3])
     [] e[1] = "tx" -> IF rm.pos0 \/ e[2] = SYN THEN [rm EXCEPT !.lastTx = e[2]]
                       ELSE [Park(rm, "own", "own") EXCEPT !.lastTx = e[2]]
-    [] e[1] \in {"to", "err", "close"} -> RecvSilence(rm)
+    [] e[1] \in {"to", "close"} \/ (e[1] = "err" /\ e[2] = "read") -> RecvSilence(rm)   \* a failed write is not silence on the bus
     [] e[1] = "msg" -> RecvMsg(rm, e[2], e[3], e[4])
     [] OTHER -> rm
 
@@ -351,6 +351,7 @@ SendMsg(sm, qm, dir, master, slave) ==
 SendEv(sm, qm, e) ==
   CASE e[1] = "tx" -> SendTx(sm, qm, e[2])
     [] e[1] = "rx" -> SendRx(sm, qm, e[2], e[3])
+    [] e[1] = "err" /\ e[2] = "write" -> IF sm.ph \in {"off", "failed", "synsent", "unspec"} THEN sm ELSE IF sm.valid THEN [sm EXCEPT !.ph = "synsent"] ELSE SendEnd(sm)
     [] e[1] \in {"to", "err", "close"} ->
          IF sm.ph = "syn" THEN SendFail(SendEnd(sm), "C02:exchange-not-ended-with-syn")
          ELSE IF sm.ph \in {"off", "failed", "synsent", "unspec"} THEN [sm EXCEPT !.pos0 = FALSE, !.arb = FALSE]
@@ -373,6 +374,8 @@ TxTx(tm, rm, am, qm, b) ==
        THEN [t EXCEPT !.role = "autosyn", !.need = IF tm.need > 2 THEN 2 ELSE tm.need]   \* an idle bus observed as SYN generator: only the explicit "one further SYN" remains demanded
   ELSE IF tm.role = "own" THEN t                                                                \* (b), byte value is C02's
   ELSE IF tm.role = "answer" THEN t                                                             \* (c) continued, value is C15's
+  ELSE IF tm.role \in {"mute", "idle"} /\ rm.ph = "mack" /\ rm.flaw = "" /\ rm.m[2] \in AnswerAddrs
+       THEN [t EXCEPT !.role = "answer"]                 \* (c) start: also after a lost arbitration the winner may address ebusd
   ELSE IF tm.role = "mute" THEN TxFail(t, "C03:transmission-after-failure-before-next-syn")
   ELSE IF tm.role = "idle" /\ tm.prevSyn THEN                                                   \* (a)
        IF CandFor(qm, b) = {} THEN TxFail(t, "C03:arbitration-without-pending-request")
